@@ -101,7 +101,10 @@ func (s *gkvp) SerializeValueTo(pc *PrintCtx) {
 // nested object in JSON mode, dotted members otherwise.
 func (s Attrs) SerializeValueTo(pc *PrintCtx) {
 	pc.Begin()
-	_ = serializeAttrs(pc, s)
+	// serializeAttrs sorts and de-duplicates in place. The members of a
+	// group are shared by every record (and goroutine) printing it, so
+	// work on a copy.
+	_ = serializeAttrs(pc, slices.Clone(s))
 	pc.End(false)
 }
 
